@@ -1,10 +1,17 @@
-"""C09: tokens and events are grammatical, positions are true (pairing / ordering / agreement clauses)."""
+"""C09: tokens and events are grammatical, positions are true (pairing / ordering / agreement clauses).
+
+Variables are found by role (reaching definitions), callees by what they resolve to, constructor arguments by the
+attribute the class stores them in; see the helper section of rules_reader.
+"""
 import ast
 
 from . import astutil as A
 from . import charworld as CW
-from .cfg import CFG, own_exprs, reaching_defs, defs_of
+from . import match as M
+from .cfg import CFG, own_exprs
 from .srcmodel import AnalysisError, FuncInfo, norm, walk_function
+from .rules_reader import (Flow, origins, is_self_attr, is_self_call, self_name, live_methods, is_new_helper, callee_classes,
+                           ctor_arg, alias_of_self_attr, linear_form, _clean, matches)
 
 BREAKS = '\n\x85\u2028\u2029'
 
@@ -17,7 +24,7 @@ def _forward_effect(repo, cls, f, _memo, _stack=()):
         return False
     res = False
     for c in A.func_calls(f.node):
-        if isinstance(c.func, ast.Attribute) and isinstance(c.func.value, ast.Name) and c.func.value.id == 'self':
+        if is_self_call(c, f):
             if c.func.attr == 'forward':
                 res = True
             else:
@@ -29,103 +36,298 @@ def _forward_effect(repo, cls, f, _memo, _stack=()):
     return res
 
 
+def clone(node, repl):
+    """copy of an expression (without parent links); repl(node) may supply a replacement for a sub-expression."""
+    r = repl(node)
+    if r is not None:
+        return r
+    new = type(node)()
+    for field, val in ast.iter_fields(node):
+        if isinstance(val, list):
+            setattr(new, field, [clone(x, repl) if isinstance(x, ast.AST) else x for x in val])
+        elif isinstance(val, ast.AST):
+            setattr(new, field, clone(val, repl))
+        else:
+            setattr(new, field, val)
+    return ast.copy_location(new, node)
+
+
+# ======================================================================================================================
+# R-MARK-ORDER
+# ======================================================================================================================
+
+def _is_get_mark(f, e):
+    return is_self_call(e, f, 'get_mark') and not e.args and not e.keywords
+
+
+def _returns_fresh_mark(repo, cls, h, idx, memo, depth):
+    """every value h returns (element idx of it, when the caller unpacks) is a mark taken with get_mark() during the call."""
+    key = (h, idx)
+    if key in memo:
+        return memo[key]
+    memo[key] = False
+    hflow = Flow(h)
+    rets = [r for r in walk_function(h.node) if isinstance(r, ast.Return)]
+    ok = bool(rets)
+    for r in rets:
+        v = r.value
+        if idx is not None:
+            if not (isinstance(v, (ast.Tuple, ast.List)) and idx < len(v.elts)):
+                ok = False
+                break
+            v = v.elts[idx]
+        if v is None:
+            ok = False
+            break
+        src = _mark_sources(repo, cls, hflow, v, hflow.node_of(r), memo, depth + 1)
+        if not src or not all(k in ('taken', 'callee') for k, n, t in src):
+            ok = False
+            break
+    memo[key] = ok
+    return ok
+
+
+def _mark_sources(repo, cls, flow, expr, at, memo, depth=0):
+    """where a mark comes from: [(kind, node, text)] with kind
+         'taken'   self.get_mark() evaluated at node
+         'callee'  handed back by a scanner method called at node, which takes it with get_mark() during that call
+         'entry'   a parameter: taken by the caller before this function started
+         'other'   anything else (text says what)"""
+    f = flow.f
+    out = []
+    for kind, e, node, idx in origins(flow, expr, at):
+        if kind == 'param':
+            out.append(('entry', flow.cfg.entry, ''))
+        elif kind == 'expr' and _is_get_mark(f, e):
+            out.append(('taken', node, ''))
+        elif kind in ('expr', 'elt') and is_self_call(e, f) and depth < 4:
+            found = repo.lookup(cls, e.func.attr)
+            if found and isinstance(found[1], FuncInfo) and found[1].module.name == 'scanner' \
+                    and _returns_fresh_mark(repo, cls, found[1], idx, memo, depth):
+                out.append(('callee', node, ''))
+            else:
+                out.append(('other', node, norm(e)[:40]))
+        else:
+            out.append(('other', node, norm(e)[:40] if isinstance(e, ast.AST) else kind))
+    return out
+
+
 def r_mark_order(ctx, repo):
     rule = ctx.rule('R-MARK-ORDER', 'in every scanner function that builds a token from two marks, the start mark is taken before any '
                                     'call that moves the reader and every mark that can become the end mark is taken at or after it')
     cls = repo.cls('loader.SafeLoader')
     S = repo.cls('scanner.Scanner')
-    memo = {}
-    n_sites = 0
-    for f in S.methods.values():
-        cfg = None
+    Token = repo.cls('tokens.Token')
+    memo, rmemo = {}, {}
+    for f in live_methods(repo, S):
+        flow = None
+        movers = None
+        assigned = None
         for c in A.func_calls(f.node):
-            fn = norm(c.func)
-            if not (fn.endswith('Token') or fn == 'TokenClass'):
+            if not isinstance(c.func, ast.Name):
                 continue
-            marks = [a for a in c.args if isinstance(a, ast.Name) and 'mark' in a.id]
-            if len(marks) < 2:
+            # cheap pre-filter: a token class by name, or a local / parameter that may hold one
+            r = repo.resolve_name(f.module, c.func.id)
+            if assigned is None:
+                assigned = set(f.params) | {n.id for n in walk_function(f.node) if isinstance(n, ast.Name) and isinstance(n.ctx, ast.Store)}
+            if c.func.id not in assigned and not (r is not None and r.kind == 'class' and hasattr(r.obj, 'is_subclass_of')
+                                                 and r.obj.is_subclass_of(Token)):
                 continue
-            start, end = marks[-2], marks[-1]
-            n_sites += 1
-            if start.id == end.id:
-                rule.ok(f.loc(c), '%s(%s, %s): zero-width token' % (fn, start.id, end.id))
+            if flow is None:
+                flow = Flow(f)
+            classes = callee_classes(repo, S, flow, c)
+            if not classes or not all(k.is_subclass_of(Token) for k in classes):
                 continue
-            if cfg is None:
-                cfg = CFG(f.node)
-            site = cfg.nodes_of(A.enclosing_stmt(c))
-            if not site:
-                raise AnalysisError('%s: token construction site not in CFG' % f.qualname)
-            site = site[0]
-            rd_s = reaching_defs(cfg, start.id)[site]
-            rd_e = reaching_defs(cfg, end.id)[site]
-            if not rd_s or not rd_e:
-                # a parameter (start_mark passed in): taken by the caller before the call
-                if not rd_s and start.id in f.params:
-                    rd_s = {cfg.entry}
-                else:
-                    raise AnalysisError('%s: no definition of %s/%s reaches the token construction' % (f.qualname, start.id, end.id))
-            movers = []
-            for n in cfg.nodes:
-                if n.ast is None:
-                    continue
-                for sub in own_exprs(n):
-                    if isinstance(sub, ast.Call) and isinstance(sub.func, ast.Attribute) and isinstance(sub.func.value, ast.Name) \
-                            and sub.func.value.id == 'self':
-                        if sub.func.attr == 'forward':
-                            movers.append(n)
-                        else:
-                            found = repo.lookup(cls, sub.func.attr)
-                            if found and isinstance(found[1], FuncInfo) and found[1].module.name == 'scanner' \
-                                    and _forward_effect(repo, cls, found[1], memo):
+            fn = norm(c.func) if c.func.id not in assigned else '/'.join(sorted(k.name for k in classes))
+            pairs = {(id(s), id(e)): (s, e) for s, e in ((ctor_arg(repo, k, c, 'start_mark'), ctor_arg(repo, k, c, 'end_mark')) for k in classes)}
+            if len(pairs) != 1:
+                raise AnalysisError('%s: the token classes built at line %d take their marks at different positions' % (f.qualname, c.lineno))
+            start, end = list(pairs.values())[0]
+            if start is None or end is None:
+                continue
+            if ast.dump(start) == ast.dump(end):
+                rule.ok(f.loc(c), '%s(%s, %s): zero-width token' % (fn, norm(start), norm(end)))
+                continue
+            cfg = flow.cfg
+            site = flow.node_of(c)
+            src_s = _mark_sources(repo, cls, flow, start, site, rmemo)
+            src_e = _mark_sources(repo, cls, flow, end, site, rmemo)
+            if not src_s or not src_e:
+                raise AnalysisError('%s: no definition of the marks reaches the token construction at line %d' % (f.qualname, c.lineno))
+            if movers is None:
+                movers = []
+                for n in cfg.nodes:
+                    if n.ast is None:
+                        continue
+                    for sub in own_exprs(n):
+                        if is_self_call(sub, f):
+                            if sub.func.attr == 'forward':
                                 movers.append(n)
-            problems = []
-            for ds in rd_s:
-                if ds is cfg.entry:
+                            else:
+                                found = repo.lookup(cls, sub.func.attr)
+                                if found and isinstance(found[1], FuncInfo) and found[1].module.name == 'scanner' \
+                                        and _forward_effect(repo, cls, found[1], memo):
+                                    movers.append(n)
+            problems = []           # (code for the key, text)
+            for kind, ds, txt in src_s:
+                if kind == 'entry':
+                    continue            # a start mark passed in: taken by the caller before the call
+                if kind != 'taken':
+                    problems.append(('start-not-taken', 'the start mark is not taken with self.get_mark() (%s)' % txt))
                     continue
-                # the start definition must be a get_mark() and no mover may precede it on any path
-                val = ds.ast.value if isinstance(ds.ast, ast.Assign) else None
-                if val is None or norm(val) != 'self.get_mark()':
-                    problems.append('the start mark %s is not taken with self.get_mark()' % start.id)
-                    continue
+                # no mover may execute before the start mark is taken (loops back excluded: a token is built once per call)
                 before = cfg.reach([cfg.entry], blocked=[ds])
-                first_movers = [m for m in movers if m in before and m is not ds and ds in cfg.reach([m])]
-                # movers that can execute before ds on a path leading to ds, excluding loops back (token built once per call)
-                for m in first_movers:
-                    if not cfg.dominates(ds, m):
-                        problems.append('the reader may already have moved (%s) when the start mark is taken'
-                                        % norm(m.ast).split('\n')[0][:40])
+                for m in movers:
+                    if m in before and m is not ds and ds in cfg.reach([m]):
+                        problems.append(('moved-before-start', 'the reader may already have moved (%s) when the start mark is taken'
+                                         % norm(m.ast).split('\n')[0][:40]))
                         break
-            for de in rd_e:
-                val = de.ast.value if isinstance(de.ast, ast.Assign) else None
-                if val is None:
-                    continue
-                vt = norm(val)
-                if vt == start.id:
-                    continue            # end_mark = start_mark
-                if vt == 'self.get_mark()' or 'end_mark' in norm(de.ast.targets[0]) or isinstance(de.ast.targets[0], ast.Tuple):
-                    # must be evaluated at or after the start definition on every path
-                    for ds in rd_s:
-                        if ds is cfg.entry:
-                            continue
-                        if not cfg.dominates(ds, de):
-                            problems.append('the end mark can be taken before the start mark (%s at line %d)' % (vt[:30], de.lineno))
+            for kind, de, txt in src_e:
+                if kind in ('taken', 'callee'):
+                    # must be evaluated at or after the start mark on every path
+                    for k2, ds, t2 in src_s:
+                        if k2 == 'taken' and not cfg.dominates(ds, de):
+                            problems.append(('end-before-start', 'the end mark can be taken before the start mark (line %d)' % de.lineno))
+                elif kind == 'entry':
+                    if any(k2 != 'entry' for k2, ds, t2 in src_s):
+                        problems.append(('end-before-start', 'the end mark is passed in by the caller but the start mark is taken later'))
                 else:
-                    problems.append('the end mark is computed as %s' % vt[:40])
+                    problems.append(('end-computed', 'the end mark is computed as %s' % txt))
             if problems:
-                rule.fail('%s|%s|%s' % (f.qualname, fn, problems[0][:60]), f.module.rel, c.lineno, f.qualname, norm(c)[:80],
+                rule.fail('%s|%s|%s' % (f.qualname, fn, problems[0][0]), f.module.rel, c.lineno, f.qualname, norm(c)[:80],
                           '%s: %s - a token whose start mark lies after its end mark, or not at its first character'
-                          % (fn, '; '.join(sorted(set(problems)))))
+                          % (fn, '; '.join(sorted(set(t for k, t in problems)))))
             else:
-                rule.ok(f.loc(c), '%s(%s, %s): start taken first, end at or after it' % (fn, start.id, end.id))
-    rule.require_min(15, 'token construction sites')
+                rule.ok(f.loc(c), '%s(%s, %s): start taken first, end at or after it' % (fn, norm(start), norm(end)))
+    rule.require_min(10, 'token construction sites')
     return rule
 
 
-def _line_advance_test(f):
-    for n in walk_function(f.node):
-        if isinstance(n, ast.If) and any(isinstance(s, ast.AugAssign) and norm(s.target) == 'self.line' for s in n.body):
-            return n
-    return None
+# ======================================================================================================================
+# R-BREAKSET-AGREEMENT(positions)
+# ======================================================================================================================
+
+def _and3(vals):
+    if any(v is False for v in vals):
+        return False
+    return True if all(v is True for v in vals) else None
+
+
+def _or3(vals):
+    if any(v is True for v in vals):
+        return True
+    return False if all(v is False for v in vals) else None
+
+
+class _LineAdvance:
+    """the condition under which one iteration of Reader.forward's consuming loop advances self.line, as a function of the
+    consumed character and the character after it.  Reads of the buffer are identified by their offset from the pointer at
+    the start of the iteration (0: the consumed character, 1: the next one), whatever local they are kept in."""
+
+    def __init__(self, repo, fw):
+        self.repo = repo
+        self.f = fw
+        self.flow = Flow(fw)
+        cfg = self.flow.cfg
+        self.adv = [n for n in walk_function(fw.node) if isinstance(n, ast.AugAssign) and is_self_attr(n.target, fw, 'line')
+                    and isinstance(n.op, ast.Add)]
+        if not self.adv:
+            raise AnalysisError('Reader.forward: line counting not found')
+        loops = set()
+        for a in self.adv:
+            p = getattr(a, '_parent', None)
+            while p is not None and not isinstance(p, (ast.While, ast.For)):
+                p = getattr(p, '_parent', None)
+            if p is None:
+                raise AnalysisError('Reader.forward: the line is not advanced inside the consuming loop')
+            loops.add(p)
+        if len(loops) != 1:
+            raise AnalysisError('Reader.forward: more than one consuming loop')
+        self.loop = loops.pop()
+        if isinstance(self.loop, ast.While):
+            self.head = cfg.entry_of(self.loop)
+        else:
+            hn = cfg.nodes_of(self.loop.iter)
+            self.head = hn[0] if hn else None
+        if self.head is None:
+            raise AnalysisError('Reader.forward: consuming loop not on the control-flow graph')
+        self.incs = [self.flow.node_of(s) for s in ast.walk(self.loop) if isinstance(s, ast.AugAssign) and is_self_attr(s.target, fw, 'pointer')]
+        self.in_iter = cfg.reach([m for (m, lab) in cfg.succ[self.head]], blocked=[self.head])
+
+    def _incs_before(self, r):
+        """how many pointer increments have certainly happened in this iteration when node r executes; None if it depends
+        on the path."""
+        cfg = self.flow.cfg
+        k = 0
+        for p in self.incs:
+            a = p.ast
+            if not (isinstance(a.op, ast.Add) and isinstance(a.value, ast.Constant) and a.value.value == 1):
+                return None
+            if p is r:
+                continue
+            maybe = p in self.in_iter and r in cfg.reach([m for (m, lab) in cfg.succ[p]], blocked=[self.head])
+            if not maybe:
+                continue
+            certainly = r not in cfg.reach([m for (m, lab) in cfg.succ[self.head]], blocked=[self.head, p])
+            if not certainly:
+                return None
+            k += 1
+        return k
+
+    def _read_offset(self, e, node):
+        """e (evaluated at node) reads the buffer at pointer+k: offset of that character from the iteration's start"""
+        if not (isinstance(e, ast.Subscript) and alias_of_self_attr(self.flow, e.value, node, 'buffer')):
+            return None
+        lf = linear_form(e.slice)
+        if lf is None or lf.get('%s.pointer' % self_name(self.f)) != 1 or set(_clean(lf)) - {'%s.pointer' % self_name(self.f), ''}:
+            return None
+        if node not in self.in_iter:
+            return None
+        b = self._incs_before(node)
+        return None if b is None else lf.get('', 0) + b
+
+    def instantiate(self, test, chars):
+        """test with every buffer read replaced by chars[offset] (unknown offsets are left alone)"""
+        def repl(n):
+            if isinstance(n, ast.Subscript):
+                off = self._read_offset(n, self.flow.node_of(n))
+                if off in chars:
+                    return ast.Constant(chars[off])
+            if isinstance(n, ast.Name) and isinstance(n.ctx, ast.Load):
+                at = self.flow.node_of(n)
+                offs = set()
+                for kind, e, node, idx in origins(self.flow, n, at):
+                    offs.add(self._read_offset(e, node) if kind == 'expr' else None)
+                if len(offs) == 1 and None not in offs and list(offs)[0] in chars:
+                    return ast.Constant(chars[list(offs)[0]])
+            return None
+        return ast.fix_missing_locations(clone(test, repl))
+
+    def advances(self, cur, nxt):
+        """three-valued: does an iteration consuming `cur`, followed by `nxt`, advance the line?"""
+        alts = []
+        for a in self.adv:
+            conds = []
+            for iff, branch in A.guarding_ifs(a, self.loop):
+                v = CW.eval_cond(self.repo, self.instantiate(iff.test, {0: cur, 1: nxt}), {})
+                conds.append(v if branch == 'body' or v is None else (not v))
+            alts.append(_and3(conds))
+        return _or3(alts)
+
+    def column_reset(self):
+        """every line advance is accompanied by `self.column = 0` in the same iteration"""
+        cfg = self.flow.cfg
+        zs = [self.flow.node_of(s) for s in ast.walk(self.loop) if isinstance(s, ast.Assign) and any(is_self_attr(t, self.f, 'column') for t in s.targets)
+              and isinstance(s.value, ast.Constant) and s.value.value == 0 and not isinstance(s.value.value, bool)]
+        if not zs:
+            return False
+        for a in self.adv:
+            an = self.flow.node_of(a)
+            after = cfg.must_pass_between(an, self.head, zs)
+            before = an not in cfg.reach([m for (m, lab) in cfg.succ[self.head]], blocked=[self.head] + zs)
+            if not (after or before):
+                return False
+        return True
 
 
 def r_breakset_positions(ctx, repo):
@@ -135,9 +337,8 @@ def r_breakset_positions(ctx, repo):
     fw = R.methods.get('forward')
     if fw is None:
         raise AnalysisError('Reader.forward has vanished')
-    t = _line_advance_test(fw)
-    if t is None:
-        raise AnalysisError('Reader.forward: line counting not found')
+    la = _LineAdvance(repo, fw)
+    t = la.adv[0]
     cls = repo.cls('loader.SafeLoader')
     slb = repo.func('scanner.Scanner.scan_line_break')
     probes = sorted(set(CW.representative_chars(repo, 'scanner')) | set('\r\n\x85\u2028\u2029\x0b\x0c\x1c\x1d\x1e a'))
@@ -146,10 +347,7 @@ def r_breakset_positions(ctx, repo):
         if c == '\0':
             continue
         # reader: is c (followed by something that is not LF) a line advance?
-        src = norm(t.test).replace('self.buffer[self.pointer]', "'x'")
-        r_adv = CW.eval_cond(repo, ast.parse(src, mode='eval').body, {'ch': c})
-        src2 = norm(t.test).replace('self.buffer[self.pointer]', "'\\n'")
-        r_adv_lf = CW.eval_cond(repo, ast.parse(src2, mode='eval').body, {'ch': c})
+        r_adv = la.advances(c, 'x')
         # scanner: does scan_line_break treat c as a break?
         it = CW.Interp(repo, cls, c, 'self.peek()', None)
         ends = it.run_block(slb.node.body, CW.State({}), 0)
@@ -160,23 +358,26 @@ def r_breakset_positions(ctx, repo):
             raise AnalysisError('break-set comparison undecidable for %r' % c)
         if bool(r_adv) != bool(s_break):
             bad.append((c, r_adv, s_break))
-        if c == '\r' and r_adv_lf is not False:
-            bad.append(('\r\n', r_adv_lf, 'one break'))
+        if c == '\r' and la.advances(c, '\n') is not False:
+            bad.append(('\r\n', la.advances(c, '\n'), 'one break'))
+    where = getattr(t, '_parent', t)
     if bad:
-        rule.fail('reader-vs-scanner|%s' % ''.join(repr(b[0]) for b in bad)[:40], fw.module.rel, t.lineno, fw.qualname, norm(t.test)[:90],
+        rule.fail('reader-vs-scanner|%s' % ''.join(repr(b[0]) for b in bad)[:40], fw.module.rel, t.lineno, fw.qualname,
+                  norm(where.test)[:90] if isinstance(where, ast.If) else norm(t),
                   'Reader.forward and Scanner.scan_line_break disagree on %s (reader advances line: %s, scanner treats as break: %s): '
                   'every mark after such a character names a line/column that does not exist in the input'
                   % (', '.join(repr(b[0]) for b in bad[:4]), bad[0][1], bad[0][2]))
     else:
         rule.ok(fw.loc(t), 'line advance set == scanner break set over %d probe characters; CR LF counted once' % len(probes))
-    # column reset accompanies the line advance; BOM does not count as a column
-    body = norm(t.body)
-    if 'self.column = 0' in body:
+    # column reset accompanies the line advance
+    if la.column_reset():
         rule.ok(fw.loc(t), 'column reset with the line advance')
     else:
         rule.fail('%s|column' % fw.qualname, fw.module.rel, t.lineno, fw.qualname, 'self.column = 0', 'the column is not reset at a line break')
-    M = repo.cls('error.Mark')
-    gs = M.methods.get('get_snippet')
+    Mk = repo.cls('error.Mark')
+    gs = Mk.methods.get('get_snippet')
+    if gs is None:
+        raise AnalysisError('Mark.get_snippet has vanished')
     lits = set()
     for c in walk_function(gs.node):
         if isinstance(c, ast.Compare) and isinstance(c.ops[0], (ast.In, ast.NotIn)):
@@ -192,6 +393,23 @@ def r_breakset_positions(ctx, repo):
     return rule
 
 
+# ======================================================================================================================
+# R-KEY-BEFORE-VALUE
+# ======================================================================================================================
+
+def _built_classes(repo, cls, flow, expr, at):
+    """names of the classes of the object `expr` denotes at `at` (a construction, possibly kept in a local); [] if unknown"""
+    out = []
+    for kind, e, node, idx in origins(flow, expr, at):
+        if kind != 'expr' or not isinstance(e, ast.Call):
+            return []
+        ks = callee_classes(repo, cls, flow, e)
+        if not ks:
+            return []
+        out.extend(k.name for k in ks if k.name not in out)
+    return out
+
+
 def r_key_before_value(ctx, repo):
     rule = ctx.rule('R-KEY-BEFORE-VALUE', 'fetch_value inserts the KEY (and BLOCK-MAPPING-START) token at the saved token number before it '
                                           'appends VALUE; save_possible_simple_key records tokens_taken + len(tokens)')
@@ -200,23 +418,67 @@ def r_key_before_value(ctx, repo):
     g = S.methods.get('save_possible_simple_key')
     if f is None or g is None:
         raise AnalysisError('fetch_value / save_possible_simple_key have vanished')
-    ins = sorted([c for c in A.func_calls(f.node) if norm(c.func) == 'self.tokens.insert'], key=lambda c: c.lineno)
-    ok = len(ins) == 2 and all(norm(c.args[0]) == 'key.token_number - self.tokens_taken' for c in ins)
-    kinds = [norm(c.args[1].func) for c in ins if isinstance(c.args[1], ast.Call)]
-    if ok and kinds == ['KeyToken', 'BlockMappingStartToken']:
+    flow = Flow(f)
+    cfg = flow.cfg
+    sn = self_name(f)
+
+    def saved_key(e, at):
+        """e denotes the candidate recorded for the current flow level"""
+        og = origins(flow, e, at)
+        return bool(og) and all(kind == 'expr' and (matches('self.possible_simple_keys[self.flow_level]', x) is not None or
+                                                    matches('self.possible_simple_keys.pop(self.flow_level)', x) is not None)
+                                for kind, x, n, i in og)
+    ins = [c for c in A.func_calls(f.node) if matches('self.tokens.insert', c.func) is not None and len(c.args) == 2]
+    at_saved = True
+    kinds = {}
+    for c in ins:
+        at = flow.node_of(c)
+
+        def atom(x, at=at):
+            return '<key>.token_number' if isinstance(x, ast.Attribute) and x.attr == 'token_number' and saved_key(x.value, at) else None
+        if _clean(linear_form(c.args[0], atom)) != {'<key>.token_number': 1, '%s.tokens_taken' % sn: -1}:
+            at_saved = False
+        for k in _built_classes(repo, S, flow, c.args[1], at) or ['?']:
+            kinds.setdefault(k, []).append(at)
+    keys, bms = kinds.get('KeyToken', []), kinds.get('BlockMappingStartToken', [])
+    # BLOCK-MAPPING-START is inserted at the same index after KEY, so that it ends up in front of it
+    order = bool(keys) and bool(bms) and all(any(cfg.dominates(k, b) for k in keys) for b in bms) \
+        and not any(k in cfg.reach([b]) for k in keys for b in bms)
+    if ins and at_saved and set(kinds) == {'KeyToken', 'BlockMappingStartToken'} and order:
         rule.ok(f.loc(), 'KEY then BLOCK-MAPPING-START inserted at key.token_number - tokens_taken')
     else:
         rule.fail('%s|insert' % f.qualname, f.module.rel, f.node.lineno, f.qualname, 'self.tokens.insert(...)',
                   'the retroactive KEY / BLOCK-MAPPING-START tokens are not inserted at the position recorded for the simple key')
-    cfg = CFG(f.node)
-    val = [n for n in cfg.nodes if n.ast is not None and any(isinstance(s, ast.Call) and norm(s.func) == 'ValueToken' for s in own_exprs(n))]
-    insn = [n for n in cfg.nodes if n.ast is not None and any(isinstance(s, ast.Call) and norm(s.func) == 'self.tokens.insert' for s in own_exprs(n))]
+    val = [n for n in cfg.nodes if n.ast is not None and any(isinstance(s, ast.Call) and isinstance(s.func, ast.Name) and s.func.id == 'ValueToken'
+                                                             for s in own_exprs(n))]
+    insn = [flow.node_of(c) for c in ins]
     if val and insn and all(v in cfg.reach([i]) and i not in cfg.reach([v]) for v in val for i in insn):
         rule.ok(f.loc(), 'VALUE appended after the KEY insertion')
     else:
         rule.fail('%s|order' % f.qualname, f.module.rel, f.node.lineno, f.qualname, 'ValueToken', 'VALUE can be queued before its KEY')
-    t = norm(g.node)
-    if 'token_number = self.tokens_taken + len(self.tokens)' in t and 'self.possible_simple_keys[self.flow_level] = key' in t:
+    # save_possible_simple_key: the candidate stored for the current flow level carries tokens_taken + len(tokens)
+    gflow = Flow(g)
+    gs = self_name(g)
+    SK = repo.cls('scanner.SimpleKey')
+    stores = M.find(g.node, 'self.possible_simple_keys[self.flow_level] = __v')
+    recorded = bool(stores)
+    for st, e in stores:
+        at = gflow.node_of(st)
+        og = origins(gflow, e['__v'], at)
+        if not og:
+            recorded = False
+        for kind, x, node, idx in og:
+            if not (kind == 'expr' and isinstance(x, ast.Call) and SK in callee_classes(repo, S, gflow, x)):
+                recorded = False
+                continue
+            tn = ctor_arg(repo, SK, x, 'token_number')
+            if tn is None:
+                recorded = False
+                continue
+            for k2, y, n2, i2 in origins(gflow, tn, node):
+                if k2 != 'expr' or _clean(linear_form(y)) != {'%s.tokens_taken' % gs: 1, 'len(%s.tokens)' % gs: 1}:
+                    recorded = False
+    if recorded:
         rule.ok(g.loc(), 'candidate recorded as tokens_taken + len(tokens) for the current flow level')
     else:
         rule.fail('%s|record' % g.qualname, g.module.rel, g.node.lineno, g.qualname, 'token_number = ...',
@@ -224,8 +486,100 @@ def r_key_before_value(ctx, repo):
     return rule
 
 
+# ======================================================================================================================
+# R-PARSER-STACK-DISCIPLINE
+# ======================================================================================================================
+
 NODE_STATES = {'parse_block_node', 'parse_flow_node', 'parse_block_node_or_indentless_sequence', 'parse_node',
                'parse_document_content'}
+MAX_PATHS = 4000
+
+
+def _state_ref(f, e):
+    """self.<name> -> name"""
+    return e.attr if isinstance(e, ast.Attribute) and isinstance(e.value, ast.Name) and e.value.id == self_name(f) else None
+
+
+class _StackEvents:
+    """per CFG node of a parser method: the stack-relevant events it performs, as (code, argument)
+
+        S / Sn   self.state = <state> / <node-parsing state>       P   self.state = self.states.pop()
+        A        self.states.append(...)                           D / Dn  delegation: call of a state / node state
+        M+ / M-  self.marks.append(...) / self.marks.pop()
+    Calls of helpers that are not part of the reference inventory (and could not be inlined) contribute the events of
+    their own paths."""
+
+    def __init__(self, repo, P, names):
+        self.repo, self.P, self.names = repo, P, names
+        self._summary = {}
+
+    def node_events(self, f, n, name, stack=()):
+        """list of alternatives, each a tuple of events"""
+        a = n.ast
+        if a is None:
+            return [()]
+        if n.kind == 'stmt' and isinstance(a, ast.Assign) and any(is_self_attr(t, f, 'state') for t in a.targets):
+            if matches('self.states.pop()', a.value) is not None:
+                return [(('P', None),)]
+            if isinstance(a.value, ast.Constant) and a.value.value is None:
+                return [(('S', None),)]        # end of stream
+            nm = _state_ref(f, a.value)
+            if nm in NODE_STATES:
+                return [(('Sn', nm),)]       # the next state parses a child node
+            return [(('S', nm),)]
+        alts = [()]
+        for sub in own_exprs(n):
+            if not isinstance(sub, ast.Call):
+                continue
+            ev = None
+            if matches('self.states.append', sub.func) is not None:
+                ev = ('A', _state_ref(f, sub.args[0]) if sub.args else None)
+            elif matches('self.marks.append', sub.func) is not None:
+                ev = ('M+', None)
+            elif matches('self.marks.pop', sub.func) is not None:
+                ev = ('M-', None)
+            elif is_self_call(sub, f) and sub.func.attr in self.names:
+                ev = ('Dn' if sub.func.attr in NODE_STATES else 'D', sub.func.attr)
+            elif is_self_call(sub, f):
+                h = self.P.methods.get(sub.func.attr)
+                if h is not None and is_new_helper(h) and h not in stack:
+                    sm = self.summary(h, stack + (f,))
+                    alts = [x + y for x in alts for y in sm]
+                    if len(alts) > 64:
+                        raise AnalysisError('%s: too many paths through the helpers it calls' % f.qualname)
+                    continue
+            if ev is not None:
+                alts = [x + (ev,) for x in alts]
+        return alts
+
+    def paths(self, f, name, stack=()):
+        """event sequences of all acyclic paths entry -> normal exit"""
+        cfg = CFG(f.node)
+        out = []
+        work = [(cfg.entry, (), frozenset())]
+        while work:
+            n, evs, seen = work.pop()
+            if n in seen:
+                continue
+            if n in (cfg.exit_return, cfg.exit_fall):
+                out.append(evs)
+                if len(out) > MAX_PATHS:
+                    raise AnalysisError('%s: too many paths' % f.qualname)
+                continue
+            if n is cfg.exit_raise:
+                continue
+            for alt in self.node_events(f, n, name, stack):
+                e2 = evs + alt
+                for (m, lab) in cfg.succ[n]:
+                    if lab == 'exc':
+                        continue
+                    work.append((m, e2, seen | {n}))
+        return out
+
+    def summary(self, h, stack):
+        if h not in self._summary:
+            self._summary[h] = sorted(set(self.paths(h, h.name, stack)))
+        return self._summary[h]
 
 
 def r_parser_stack_discipline(ctx, repo):
@@ -233,75 +587,38 @@ def r_parser_stack_discipline(ctx, repo):
                                                  '(direct assignment, pop of the continuation stack, or delegation), and a continuation is '
                                                  'pushed exactly when the path delegates to a node-parsing state')
     P = repo.cls('parser.Parser')
+    methods = live_methods(repo, P)
     # state functions: assigned to self.state / pushed / delegated to
     names = set()
-    for f in P.methods.values():
+    for f in methods:
         for n in walk_function(f.node):
-            if isinstance(n, ast.Assign) and any(norm(t) == 'self.state' for t in n.targets) and isinstance(n.value, ast.Attribute) \
-                    and norm(n.value.value) == 'self':
+            if isinstance(n, ast.Assign) and any(is_self_attr(t, f, 'state') for t in n.targets) and _state_ref(f, n.value):
                 names.add(n.value.attr)
-            if isinstance(n, ast.Call) and norm(n.func) == 'self.states.append' and n.args and isinstance(n.args[0], ast.Attribute):
+            if isinstance(n, ast.Call) and matches('self.states.append', n.func) is not None and n.args and _state_ref(f, n.args[0]):
                 names.add(n.args[0].attr)
     names |= NODE_STATES
-    count = 0
+    SE = _StackEvents(repo, P, names)
+    all_paths = {}
     for name in sorted(names):
         f = P.methods.get(name)
         if f is None:
             raise AnalysisError('parser state %s is referenced but not defined' % name)
-        cfg = CFG(f.node)
-
-        def classify(n):
-            a = n.ast
-            if a is None:
-                return None
-            if n.kind == 'stmt' and isinstance(a, ast.Assign) and any(norm(t) == 'self.state' for t in a.targets):
-                if norm(a.value) == 'self.states.pop()':
-                    return 'P'
-                if isinstance(a.value, ast.Constant) and a.value.value is None:
-                    return 'S'        # end of stream
-                if isinstance(a.value, ast.Attribute) and a.value.attr in NODE_STATES:
-                    return 'Sn'       # the next state parses a child node
-                return 'S'
-            for sub in own_exprs(n):
-                if isinstance(sub, ast.Call) and norm(sub.func) == 'self.states.append':
-                    return 'A'
-                if isinstance(sub, ast.Call) and isinstance(sub.func, ast.Attribute) and norm(sub.func.value) == 'self' \
-                        and sub.func.attr in names and sub.func.attr != name + '_':
-                    return 'Dn' if sub.func.attr in NODE_STATES else 'D'
-            return None
-        # enumerate acyclic paths entry -> normal exit, counting
+        paths = SE.paths(f, name)
+        all_paths[name] = paths
         bad = []
-        paths = 0
-        stack = [(cfg.entry, (), frozenset())]
-        while stack:
-            n, counts, seen = stack.pop()
-            if n in seen:
-                continue
-            k = classify(n)
-            c2 = counts + ((k,) if k else ())
-            if n in (cfg.exit_return, cfg.exit_fall):
-                paths += 1
-                a = c2.count('A')
-                dn = c2.count('Dn') + c2.count('Sn')
-                dec = c2.count('S') + c2.count('P') + c2.count('D') + dn
-                if name in NODE_STATES:
-                    # a node-entry state passes the pending continuation through: it never pushes
-                    if dec != 1 or a != 0:
-                        bad.append(c2)
-                elif dec != 1 or a != dn:
-                    bad.append(c2)
-                continue
-            if n is cfg.exit_raise:
-                continue
-            if paths > 4000:
-                raise AnalysisError('%s: too many paths' % f.qualname)
-            for (m, lab) in cfg.succ[n]:
-                if lab == 'exc':
-                    continue
-                stack.append((m, c2, seen | {n}))
-        count += 1
+        for p in paths:
+            codes = [c for c, a in p]
+            a = codes.count('A')
+            dn = codes.count('Dn') + codes.count('Sn')
+            dec = codes.count('S') + codes.count('P') + codes.count('D') + dn
+            if name in NODE_STATES:
+                # a node-entry state passes the pending continuation through: it never pushes
+                if dec != 1 or a != 0:
+                    bad.append(codes)
+            elif dec != 1 or a != dn:
+                bad.append(codes)
         if bad:
-            b = bad[0]
+            b = [c for c in bad[0] if c not in ('M+', 'M-')]
             rule.fail('%s|%s' % (f.qualname, ''.join(b)), f.module.rel, f.node.lineno, f.qualname, 'def %s' % name,
                       'a path through %s performs %d push(es), %d delegation(s) to a node state and %d next-state decision(s) '
                       '(sequence %s): the continuation stack gets out of balance, so a later construct ends with the wrong '
@@ -309,65 +626,111 @@ def r_parser_stack_discipline(ctx, repo):
                       % (name, b.count('A'), b.count('Dn') + b.count('Sn'),
                          b.count('S') + b.count('P') + b.count('D') + b.count('Dn') + b.count('Sn'), '-'.join(b)))
         else:
-            rule.ok(f.loc(), '%s: %d paths, each with one decision and push==node-delegation' % (name, paths))
-    rule.require_min(20, 'parser state functions')
-    # marks stack: pushed in the *_first_* handlers, popped where the matching end event is built
-    pushes = [(f, c) for f in P.methods.values() for c in A.func_calls(f.node) if norm(c.func) == 'self.marks.append']
-    pops = [(f, c) for f in P.methods.values() for c in A.func_calls(f.node) if norm(c.func) == 'self.marks.pop']
-    okm = len(pushes) == len(pops) and all('first' in f.name for f, c in pushes)
-    for f, c in pops:
-        body = norm(getattr(A.enclosing_stmt(c), '_parent', f.node))
-        if 'EndEvent(' not in norm(f.node):
-            okm = False
-    if okm:
-        rule.ok(P.module.rel, 'marks: %d pushes in *_first_* handlers, %d pops next to the End events' % (len(pushes), len(pops)))
+            rule.ok(f.loc(), '%s: %d paths, each with one decision and push==node-delegation' % (name, len(paths)))
+    rule.require_min(12, 'parser state functions')
+    # marks stack: its depth is the number of open collections.  A state that opens a collection pushes one mark on every
+    # path and hands over to the collection's entry state; that entry state pops one mark exactly on the paths that end the
+    # collection (the ones that pop the continuation stack); nothing else touches the stack.
+    problems = []
+    openers, entries = {}, {}
+    for name, paths in all_paths.items():
+        pushes = [[c for c, a in p].count('M+') for p in paths]
+        if any(pushes):
+            if not all(k == 1 for k in pushes):
+                problems.append('%s pushes a mark on some paths only (or twice)' % name)
+            targets = {a for p in paths for c, a in p if c == 'D'}
+            if len(targets) != 1 or not all([c for c, a in p].count('D') == 1 for p in paths):
+                problems.append('%s pushes a mark but does not hand over to the entry state of a collection' % name)
+            else:
+                openers[name] = list(targets)[0]
+                entries.setdefault(list(targets)[0], []).append(name)
+    n_pops = 0
+    for name, paths in all_paths.items():
+        for p in paths:
+            codes = [c for c, a in p]
+            k = codes.count('M-')
+            n_pops += k
+            if name in entries:
+                if 'M+' in codes:
+                    problems.append('%s both opens and iterates a collection' % name)
+                if codes.count('P') and k != 1:
+                    problems.append('%s ends its collection without popping exactly one mark' % name)
+                if not codes.count('P') and k:
+                    problems.append('%s pops a mark although the collection continues' % name)
+            elif k:
+                problems.append('%s pops a mark but no state that pushes one hands over to it' % name)
+    for f in methods:
+        if f.name not in names and not is_new_helper(f):
+            for c in A.func_calls(f.node):
+                if matches('self.marks.append', c.func) is not None or matches('self.marks.pop', c.func) is not None:
+                    problems.append('%s touches the marks stack outside the state functions' % f.name)
+    if not openers or not n_pops:
+        problems.append('no state pushes / pops the marks stack')
+    if not problems:
+        rule.ok(P.module.rel, 'marks: pushed by the %d states that open a collection, popped where their entry states end it'
+                % len(openers))
     else:
         rule.fail('parser.Parser|marks', P.module.rel, P.node.lineno, 'parser.Parser', 'self.marks',
-                  'the marks stack is not pushed once per collection start and popped once per collection end')
+                  'the marks stack is not pushed once per collection start and popped once per collection end (%s)'
+                  % '; '.join(sorted(set(problems))[:3]))
     return rule
 
 
+# ======================================================================================================================
+# R-EVENT-MARKS
+# ======================================================================================================================
+
 END_EVENTS = {'SequenceEndEvent', 'MappingEndEvent', 'DocumentEndEvent', 'StreamEndEvent'}
+
+
+def _token_marks(flow, expr, at):
+    """the token marks `expr` (evaluated at `at`) can denote: [(attr, how the token was obtained: 'peek'|'get'|'?', line)]"""
+    f = flow.f
+    out = []
+    for kind, e, node, idx in origins(flow, expr, at):
+        if kind == 'expr' and isinstance(e, ast.Attribute) and e.attr in ('start_mark', 'end_mark'):
+            for k2, t, n2, i2 in origins(flow, e.value, node):
+                how = '?'
+                if k2 == 'expr' and is_self_call(t, f, 'peek_token'):
+                    how = 'peek'
+                elif k2 == 'expr' and is_self_call(t, f, 'get_token'):
+                    how = 'get'
+                out.append((e.attr, how, n2.lineno))
+    return out
 
 
 def r_event_marks(ctx, repo):
     rule = ctx.rule('R-EVENT-MARKS', 'an End event (or empty scalar) built from a token that was only peeked is zero-width at that '
                                      'token\'s start: it never extends over a token that belongs to the enclosing construct')
     P = repo.cls('parser.Parser')
-    n_sites = 0
-    for f in P.methods.values():
-        calls = [c for c in A.func_calls(f.node) if norm(c.func) in END_EVENTS]
-        if not calls:
-            continue
-        cfg = CFG(f.node)
-        rd_tok = reaching_defs(cfg, 'token')
-        for c in calls:
-            n_sites += 1
-            site = cfg.nodes_of(A.enclosing_stmt(c))
-            if not site:
-                continue
-            site = site[0]
-            args = c.args[:2]
+    for f in live_methods(repo, P):
+        sites = []
+        flow = None
+        for c in A.func_calls(f.node):
+            if is_self_call(c, f, 'process_empty_scalar') and c.args:
+                sites.append((c, 'empty scalar', [c.args[0]]))
+            elif isinstance(c.func, ast.Name):
+                r = repo.resolve_name(f.module, c.func.id)
+                if c.func.id not in f.params and not (r is not None and r.kind == 'class' and r.obj.name in END_EVENTS):
+                    continue
+                flow = flow or Flow(f)
+                ks = callee_classes(repo, P, flow, c)
+                if ks and all(k.name in END_EVENTS for k in ks):
+                    args = [ctor_arg(repo, ks[0], c, 'start_mark'), ctor_arg(repo, ks[0], c, 'end_mark')]
+                    sites.append((c, '/'.join(sorted(k.name for k in ks)), [a for a in args if a is not None]))
+        for c, what, args in sites:
+            flow = flow or Flow(f)
+            site = flow.node_of(c)
             problems = []
             for idx, a in enumerate(args):
-                srcs = []
-                if isinstance(a, ast.Attribute) and isinstance(a.value, ast.Name) and a.value.id == 'token':
-                    srcs.append((a.attr, rd_tok[site]))
-                elif isinstance(a, ast.Name):
-                    for d in reaching_defs(cfg, a.id)[site]:
-                        v = d.ast.value if isinstance(d.ast, ast.Assign) else None
-                        if isinstance(v, ast.Attribute) and isinstance(v.value, ast.Name) and v.value.id == 'token':
-                            srcs.append((v.attr, rd_tok[d]))
-                for attr, tdefs in srcs:
-                    for td in tdefs:
-                        tv = td.ast.value if isinstance(td.ast, ast.Assign) else None
-                        if tv is not None and norm(tv) == 'self.peek_token()' and attr == 'end_mark':
-                            problems.append('argument %d is the end_mark of a token that was only peeked (line %d)' % (idx + 1, td.lineno))
+                for attr, how, line in _token_marks(flow, a, site):
+                    if how == 'peek' and attr == 'end_mark':
+                        problems.append('argument %d is the end_mark of a token that was only peeked (line %d)' % (idx + 1, line))
             if problems:
-                rule.fail('%s|%s' % (f.qualname, norm(c.func)), f.module.rel, c.lineno, f.qualname, norm(c)[:80],
+                rule.fail('%s|%s' % (f.qualname, what), f.module.rel, c.lineno, f.qualname, norm(c)[:80],
                           '%s: %s - the event overlaps the next token, so the following event starts before this one ends '
-                          '(marks move backwards)' % (norm(c.func), problems[0]))
+                          '(marks move backwards)' % (what, problems[0]))
             else:
-                rule.ok(f.loc(c), '%s marks come from consumed tokens or are zero-width' % norm(c.func))
-    rule.require_min(8, 'End event construction sites')
+                rule.ok(f.loc(c), '%s marks come from consumed tokens or are zero-width' % what)
+    rule.require_min(12, 'End event / empty scalar construction sites')
     return rule
